@@ -3,6 +3,7 @@ package main
 import (
 	"crypto/rand"
 	"fmt"
+	"sync"
 
 	"github.com/privacybydesign/gabi"
 	"github.com/privacybydesign/gabi/big"
@@ -32,6 +33,37 @@ func init() {
 	executors["modpow"] = func(o Op) string {
 		r, err := gabi.VerifModPow(unhx(o["x"]), unhx(o["y"]), unhx(o["m"]))
 		return okInt(r, err == nil, "err")
+	}
+	executors["helpers-concurrent"] = func(o Op) string {
+		calls, _ := o["calls"].([]any)
+		seq := make([]string, len(calls))
+		for i, c := range calls {
+			co := Op(c.(map[string]any))
+			seq[i] = safely(func() string { return executors[co.str("op")](co) })
+		}
+		var mu sync.Mutex
+		bad := 0
+		var wg sync.WaitGroup
+		for gi := 0; gi < o.int("goroutines"); gi++ {
+			wg.Add(1)
+			go func(gi int) {
+				defer wg.Done()
+				for r := 0; r < o.int("rounds"); r++ {
+					i := (gi*7 + r) % len(calls)
+					co := Op(c2m(calls[i]))
+					if got := safely(func() string { return executors[co.str("op")](co) }); got != seq[i] {
+						mu.Lock()
+						bad++
+						mu.Unlock()
+					}
+				}
+			}(gi)
+		}
+		wg.Wait()
+		if bad > 0 {
+			return fmt.Sprintf("differs %d", bad)
+		}
+		return "ok"
 	}
 	executors["legendre"] = func(o Op) string {
 		return fmt.Sprint(gabi.VerifLegendreSymbol(unhx(o["a"]), unhx(o["p"])))
@@ -380,6 +412,7 @@ func genC19(g *Rng, tier string, emit func(Op)) {
 			}
 		}
 	}
+	emitHelpersConcurrent(g, thorough, emit)
 }
 
 func signed(g *Rng, x *big.Int) *big.Int {
@@ -412,4 +445,32 @@ func intervalHasPrime(start, length uint) bool {
 		}
 	}
 	return false
+}
+
+func c2m(c any) map[string]any { return c.(map[string]any) }
+
+// emitHelpersConcurrent: see genC19 (also part of the C16 battery: key generation calls the
+// Legendre symbol from concurrent generations).
+func emitHelpersConcurrent(g *Rng, thorough bool, emit func(Op)) {
+	// the helpers are called from concurrent sessions (key generation, proofs): a batch of calls
+	// evaluated one after the other, then again from many goroutines at once, must agree
+	var calls []any
+	n := 60
+	for i := 0; i < n; i++ {
+		p := new(big.Int).Or(g.bits(60+g.intn(400)), bi(1))
+		a := g.bits(1 + g.intn(500))
+		switch i % 4 {
+		case 0, 1:
+			calls = append(calls, map[string]any{"op": "legendre", "a": hx(a), "p": hx(p)})
+		case 2:
+			calls = append(calls, map[string]any{"op": "modinv", "a": hx(a), "n": hx(p)})
+		default:
+			calls = append(calls, map[string]any{"op": "fastmod", "p": hx(new(big.Int).Sub(new(big.Int).Lsh(bi(1), uint(40+g.intn(200))), bi(int64(1+2*g.intn(500))))), "x": hx(a), "alias": false, "dirty": false})
+		}
+	}
+	rounds := 200
+	if thorough {
+		rounds = 3000
+	}
+	emit(Op{"op": "helpers-concurrent", "class": "helpers-concurrent", "label": "ok", "nomodel": true, "calls": calls, "rounds": rounds, "goroutines": 16})
 }
